@@ -174,6 +174,26 @@ func Run(c Case) core.Result {
 		res.Sig, res.Violation = "C20/typed", fmt.Sprintf("ParseParameters(%q) returned a placeholder with a specified type", clip(q))
 		return res
 	}
+	// the returned list is the caller's: a parse handler types its placeholders by writing into it,
+	// and the next call for the same text must still return unspecified placeholders of the same count
+	if n > 0 {
+		func() {
+			defer func() { recover() }()
+			ps := wire.ParseParameters(q)
+			for i := range ps {
+				ps[i] = 23
+			}
+		}()
+		n3, nonzero3, _, p3 := call(q)
+		if p3 != "" {
+			res.Sig, res.Violation = "C20/panic", fmt.Sprintf("second ParseParameters(%q) panicked: %s", clip(q), p3)
+			return res
+		}
+		if nonzero3 || n3 != n {
+			res.Sig, res.Violation = "C20/typed-after-caller-write", fmt.Sprintf("ParseParameters(%q) returned %d placeholders (typed=%v) after a caller wrote types into the %d it got from an earlier call", clip(q), n3, nonzero3, n)
+			return res
+		}
+	}
 	if !over {
 		want := -1
 		switch style {
